@@ -94,9 +94,9 @@ Props/C03.vos Props/C03.vok Props/C03.required_vos: Props/C03.v Props/Shipped.vo
 Props/C04.vo Props/C04.glob Props/C04.v.beautified Props/C04.required_vo: Props/C04.v Props/Shipped.vo Proofs/ApiFacts.vo Proofs/Laws.vo
 Props/C04.vio: Props/C04.v Props/Shipped.vio Proofs/ApiFacts.vio Proofs/Laws.vio
 Props/C04.vos Props/C04.vok Props/C04.required_vos: Props/C04.v Props/Shipped.vos Proofs/ApiFacts.vos Proofs/Laws.vos
-Props/C05.vo Props/C05.glob Props/C05.v.beautified Props/C05.required_vo: Props/C05.v Props/Shipped.vo Spec/Lex.vo Spec/Grammar.vo Spec/Reject.vo Proofs/ScanRef.vo Proofs/ParseGrammar.vo Proofs/ApiFacts.vo Proofs/RejectProof.vo Proofs/Unknown.vo
-Props/C05.vio: Props/C05.v Props/Shipped.vio Spec/Lex.vio Spec/Grammar.vio Spec/Reject.vio Proofs/ScanRef.vio Proofs/ParseGrammar.vio Proofs/ApiFacts.vio Proofs/RejectProof.vio Proofs/Unknown.vio
-Props/C05.vos Props/C05.vok Props/C05.required_vos: Props/C05.v Props/Shipped.vos Spec/Lex.vos Spec/Grammar.vos Spec/Reject.vos Proofs/ScanRef.vos Proofs/ParseGrammar.vos Proofs/ApiFacts.vos Proofs/RejectProof.vos Proofs/Unknown.vos
+Props/C05.vo Props/C05.glob Props/C05.v.beautified Props/C05.required_vo: Props/C05.v Props/Shipped.vo Spec/Lex.vo Spec/Grammar.vo Spec/Reject.vo Proofs/ScanRef.vo Proofs/ParseGrammar.vo Proofs/ApiFacts.vo Proofs/RejectProof.vo Proofs/Unknown.vo Proofs/IdWords.vo
+Props/C05.vio: Props/C05.v Props/Shipped.vio Spec/Lex.vio Spec/Grammar.vio Spec/Reject.vio Proofs/ScanRef.vio Proofs/ParseGrammar.vio Proofs/ApiFacts.vio Proofs/RejectProof.vio Proofs/Unknown.vio Proofs/IdWords.vio
+Props/C05.vos Props/C05.vok Props/C05.required_vos: Props/C05.v Props/Shipped.vos Spec/Lex.vos Spec/Grammar.vos Spec/Reject.vos Proofs/ScanRef.vos Proofs/ParseGrammar.vos Proofs/ApiFacts.vos Proofs/RejectProof.vos Proofs/Unknown.vos Proofs/IdWords.vos
 Props/C06.vo Props/C06.glob Props/C06.v.beautified Props/C06.required_vo: Props/C06.v Props/Shipped.vo Spec/Eval.vo Spec/Units.vo WF/Units.vo Proofs/ApiFacts.vo Proofs/Laws.vo Proofs/MatchProof.vo Proofs/Sat.vo Proofs/RoundTrip.vo Proofs/BytesFacts.vo
 Props/C06.vio: Props/C06.v Props/Shipped.vio Spec/Eval.vio Spec/Units.vio WF/Units.vio Proofs/ApiFacts.vio Proofs/Laws.vio Proofs/MatchProof.vio Proofs/Sat.vio Proofs/RoundTrip.vio Proofs/BytesFacts.vio
 Props/C06.vos Props/C06.vok Props/C06.required_vos: Props/C06.v Props/Shipped.vos Spec/Eval.vos Spec/Units.vos WF/Units.vos Proofs/ApiFacts.vos Proofs/Laws.vos Proofs/MatchProof.vos Proofs/Sat.vos Proofs/RoundTrip.vos Proofs/BytesFacts.vos
@@ -247,6 +247,9 @@ Proofs/Unknown.vos Proofs/Unknown.vok Proofs/Unknown.required_vos: Proofs/Unknow
 Proofs/FoldUnique.vo Proofs/FoldUnique.glob Proofs/FoldUnique.v.beautified Proofs/FoldUnique.required_vo: Proofs/FoldUnique.v Spec/WF.vo Proofs/BytesFacts.vo
 Proofs/FoldUnique.vio: Proofs/FoldUnique.v Spec/WF.vio Proofs/BytesFacts.vio
 Proofs/FoldUnique.vos Proofs/FoldUnique.vok Proofs/FoldUnique.required_vos: Proofs/FoldUnique.v Spec/WF.vos Proofs/BytesFacts.vos
+Proofs/IdWords.vo Proofs/IdWords.glob Proofs/IdWords.v.beautified Proofs/IdWords.required_vo: Proofs/IdWords.v Model/Tokens.vo Proofs/BytesFacts.vo Proofs/NodeInv.vo
+Proofs/IdWords.vio: Proofs/IdWords.v Model/Tokens.vio Proofs/BytesFacts.vio Proofs/NodeInv.vio
+Proofs/IdWords.vos Proofs/IdWords.vok Proofs/IdWords.required_vos: Proofs/IdWords.v Model/Tokens.vos Proofs/BytesFacts.vos Proofs/NodeInv.vos
 Proofs/SpacesAnywhere.vo Proofs/SpacesAnywhere.glob Proofs/SpacesAnywhere.v.beautified Proofs/SpacesAnywhere.required_vo: Proofs/SpacesAnywhere.v Model/Scan.vo Model/Parse.vo Spec/Lex.vo Proofs/BytesFacts.vo Proofs/ScanRef.vo Proofs/Offsets.vo Proofs/Split.vo Proofs/Lexo.vo
 Proofs/SpacesAnywhere.vio: Proofs/SpacesAnywhere.v Model/Scan.vio Model/Parse.vio Spec/Lex.vio Proofs/BytesFacts.vio Proofs/ScanRef.vio Proofs/Offsets.vio Proofs/Split.vio Proofs/Lexo.vio
 Proofs/SpacesAnywhere.vos Proofs/SpacesAnywhere.vok Proofs/SpacesAnywhere.required_vos: Proofs/SpacesAnywhere.v Model/Scan.vos Model/Parse.vos Spec/Lex.vos Proofs/BytesFacts.vos Proofs/ScanRef.vos Proofs/Offsets.vos Proofs/Split.vos Proofs/Lexo.vos
